@@ -3,6 +3,7 @@ import Anytree.Drv.Forest
 import Anytree.Drv.Nav
 import Anytree.Drv.Walk
 import Anytree.Drv.Export
+import Anytree.Drv.Dict
 /-!
 Line-protocol driver: one JSON case per input line, one JSON object per output line:
 `{"mirror": <what the model of the code computes>, "spec": <what the specification demands>}`
@@ -19,6 +20,7 @@ def dispatch (j : Json) : R (Json × Json) := do
   | "walk" => runWalk j
   | "search" => runSearch j
   | "export" => runExport j
+  | "dict" => runDict j
   | f => throw s!"unknown family {f}"
 
 def handle (line : String) : String :=
